@@ -413,7 +413,9 @@ package node
 //@   requires solid(m)
 //@   assigns nothing
 //@   loop 1 invariant -1 <= rangeindex && rangeindex < len(segments) && p != nil && solid(p.Meta)
-//@   loop 1 invariant forall k int :: 0 <= k && k < len(path) ==> path[k] != nil && solid(path[k].Meta) && (len(path[k].Key) > 0 ==> dyn(path[k].Meta) == *meta.List)
+//@   loop 1 invariant forall k int :: 0 <= k && k < len(path) ==> path[k] != nil && preexisting(path[k]) == false
+//@   loop 1 invariant forall k int :: 0 <= k && k < len(path) ==> solid(path[k].Meta)
+//@   loop 1 invariant forall k int :: 0 <= k && k < len(path) ==> (len(path[k].Key) > 0 ==> dyn(path[k].Meta) == *meta.List)
 //@   loop 1 invariant fresh(path)
 //@   loop 1 decreases len(segments) - rangeindex
 //@   loop 2 invariant -1 <= rangeindex$2
